@@ -14,7 +14,8 @@ ASSUMPTIONS = ["responses are read as (message, status) tuples or None (=200), a
 def scenarios(tier):
     q = tier == "quick"
     menu = [("API", "add", "a", "rA", False), ("API", "add", "b", "cIn", False), ("API", "add", None, "rSmall", False),
-            ("API", "add", "a", "cBig", True), ("API", "add", "c", "Foo", False),
+            ("API", "add", "a", "cBig", True), ("API", "add", "c", "Foo", False), ("API", "add", "f", "rFine", False),
+            ("API", "upd", "f", "cFine", False),
             ("API", "upd", "a", "rBig", False), ("API", "upd", "a", "rSmall", False), ("API", "upd", "zz", "rA", False),
             ("API", "upd", "a", "Foo", False), ("API", "upd", "b", "cBig", False), ("API", "upd", "a", "cTouch", False),
             ("API", "upd", "a", "rBig", True),
